@@ -506,6 +506,8 @@ def evaluate__ceiling_and_floor_functions(self: XPathFunction, context: ta.Conte
         arg = self.number_value(arg)
     elif isinstance(arg, UntypedAtomic):
         arg = self.cast_to_double(arg.value)  # function conversion rules: untyped -> xs:double
+    elif isinstance(arg, bool):
+        raise self.error('XPTY0004', "the argument is not a number")
 
     try:
         if math.isnan(arg) or math.isinf(arg):
@@ -535,6 +537,8 @@ def evaluate__round(self: XPathFunction, context: ta.ContextType = None) -> ta.O
         return math.nan if self.parser.version == '1.0' else []
     elif isinstance(arg, XPathNode) or self.parser.compatibility_mode:
         arg = self.number_value(arg)
+    elif isinstance(arg, (bool, str)):
+        raise self.error('XPTY0004', "the argument is not a number")
 
     if isinstance(arg, float) and (math.isnan(arg) or math.isinf(arg)):
         return arg
